@@ -100,11 +100,37 @@ def vo_exists(rel):
 
 # ----------------------------------------------------------------------------- audit
 
-def audit(mod, rundir):
+def transitive_sources(targets):
+    """the .v files that the given .v targets depend on (transitively), from coq_makefile's
+    dependency file; falls back to every source if it cannot be read"""
+    dep = os.path.join(COQ, ".Makefile.d")
+    if not os.path.exists(dep):
+        return coq_sources()
+    graph = {}
+    for line in open(dep).read().replace("\\\n", " ").splitlines():
+        if ":" not in line:
+            continue
+        lhs, rhs = line.split(":", 1)
+        outs = [x for x in lhs.split() if x.endswith(".vo")]
+        deps = [x[:-3] + ".v" for x in rhs.split() if x.endswith(".vo") and not x.startswith("/")]
+        for o in outs:
+            graph.setdefault(o[:-3] + ".v", set()).update(deps)
+    seen, todo = set(), list(targets)
+    while todo:
+        t = todo.pop()
+        if t in seen:
+            continue
+        seen.add(t)
+        todo += list(graph.get(t, ()))
+    have = set(coq_sources())
+    return sorted(x for x in seen if x in have) or coq_sources()
+
+
+def audit(mod, rundir, targets=None):
     """returns dict: theorems -> assumptions text, plus problems list"""
     problems = []
-    # 1. forbidden constructs anywhere in the development
-    for rel in coq_sources():
+    # 1. forbidden constructs anywhere in what this property's theorems and checker depend on
+    for rel in (transitive_sources(targets) if targets else coq_sources()):
         src = open(os.path.join(COQ, rel)).read()
         # strip comments (nested)
         src_nc = strip_comments(src)
@@ -394,7 +420,7 @@ def run_check(prop, tier, replay=None):
     # ---- 2. audit
     thm, problems, audit_out = ({}, [], "")
     if vo_exists(prop_vo):
-        thm, problems, audit_out = audit(mod, rundir)
+        thm, problems, audit_out = audit(mod, rundir, targets=needed)
         for p in problems:
             broken.append("audit: " + p)
     obligations = len(mod.THEOREMS)
